@@ -116,11 +116,17 @@ impl WakerList {
         let queue = unsafe { &*ptr::addr_of!((*self.ptr.as_ptr()).queue) };
         let slot = unsafe { self.slice_start().add(index) };
 
+        #[cfg(futures_buffered_verif)]
+        crate::verif::ev(crate::verif::kind::PUSH_LOCK, self.ptr.as_ptr() as usize, index, 0);
         let mut wake_lock = unsafe { &*slot }.wake_lock.lock();
         let prev = core::mem::replace(&mut *wake_lock, true);
+        #[cfg(futures_buffered_verif)]
+        crate::verif::ev(crate::verif::kind::PUSH_SWAPPED, self.ptr.as_ptr() as usize, index, prev as usize);
 
         if !prev {
             queue.enqueue(unsafe { NonNull::new_unchecked(slot) });
+            #[cfg(futures_buffered_verif)]
+            crate::verif::ev(crate::verif::kind::PUSH_ENQUEUED, self.ptr.as_ptr() as usize, index, 0);
         }
     }
 
@@ -131,7 +137,11 @@ impl WakerList {
         // "register", "unregister", and "wait_until".
         // we only call register with mut access, thus we are safe.
         let meta = unsafe { &*self.ptr.as_ptr() };
+        #[cfg(futures_buffered_verif)]
+        crate::verif::ev(crate::verif::kind::REG_BEFORE, self.ptr.as_ptr() as usize, 0, 0);
         unsafe { meta.waker.register(waker) }
+        #[cfg(futures_buffered_verif)]
+        crate::verif::ev(crate::verif::kind::REG_AFTER, self.ptr.as_ptr() as usize, 0, 0);
     }
 
     fn get(&self, index: usize) -> ManuallyDrop<Waker> {
@@ -154,10 +164,19 @@ impl WakerList {
     /// thread can call this) to be guaranteed elsewhere.
     pub(crate) unsafe fn pop(&self) -> ReadySlot<(usize, ManuallyDrop<Waker>)> {
         let queue = unsafe { &*ptr::addr_of!((*self.ptr.as_ptr()).queue) };
+        #[cfg(futures_buffered_verif)]
+        if crate::verif::take_inject() {
+            crate::verif::ev(crate::verif::kind::POP_INCONSISTENT, self.ptr.as_ptr() as usize, 1, 0);
+            return ReadySlot::Inconsistent;
+        }
         match unsafe { queue.try_dequeue_unchecked() } {
             Ok(slot) => {
                 let slot = unsafe { &*slot.as_ptr() };
+                #[cfg(futures_buffered_verif)]
+                crate::verif::ev(crate::verif::kind::POP_SLOT, self.ptr.as_ptr() as usize, slot.index, 0);
                 *slot.wake_lock.lock() = false;
+                #[cfg(futures_buffered_verif)]
+                crate::verif::ev(crate::verif::kind::POP_CLEARED, self.ptr.as_ptr() as usize, slot.index, 0);
                 ReadySlot::Ready((slot.index, self.get(slot.index)))
             }
             Err(TryDequeueError::Inconsistent) => ReadySlot::Inconsistent,
@@ -208,12 +227,16 @@ mod slot {
 
         // Increment the reference count of the arc to clone it.
         unsafe fn clone_waker(waker: *const ()) -> RawWaker {
+            #[cfg(futures_buffered_verif)]
+            probe(crate::verif::kind::VT_CLONE, waker);
             unsafe { meta_ref(waker.cast()).inc_strong() };
             RawWaker::new(waker, VTABLE)
         }
 
         // We don't need ownership. Just wake_by_ref and drop the waker
         unsafe fn wake(waker: *const ()) {
+            #[cfg(futures_buffered_verif)]
+            probe(crate::verif::kind::VT_WAKE, waker);
             unsafe {
                 wake_by_ref(waker);
                 drop_waker(waker);
@@ -223,29 +246,54 @@ mod slot {
         // Find the `WakerHeader` and push the current index value into it,
         // then call the stored waker to trigger a poll
         unsafe fn wake_by_ref(waker: *const ()) {
+            #[cfg(futures_buffered_verif)]
+            probe(crate::verif::kind::VT_WAKE_BY_REF, waker);
             let slot = waker.cast::<WakerItem>();
 
             let node = unsafe { &*slot };
 
+            #[cfg(futures_buffered_verif)]
+            crate::verif::ev(crate::verif::kind::WAKE_LOCK, slot as usize, 0, 0);
             let mut wake_lock = node.wake_lock.lock();
             let prev = core::mem::replace(&mut *wake_lock, true);
+            #[cfg(futures_buffered_verif)]
+            crate::verif::ev(crate::verif::kind::WAKE_SWAPPED, slot as usize, prev as usize, 0);
 
             if !prev {
                 let meta = unsafe { meta_ref(slot) };
                 meta.queue
                     .enqueue(unsafe { NonNull::new_unchecked(slot.cast_mut()) });
+                #[cfg(futures_buffered_verif)]
+                crate::verif::ev(crate::verif::kind::WAKE_ENQUEUED, slot as usize, 0, 0);
                 meta.waker.notify();
+                #[cfg(futures_buffered_verif)]
+                crate::verif::ev(crate::verif::kind::WAKE_NOTIFIED, slot as usize, 0, 0);
+            }
+            #[cfg(futures_buffered_verif)]
+            {
+                drop(wake_lock);
+                crate::verif::ev(crate::verif::kind::WAKE_DONE, slot as usize, 0, 0);
             }
         }
 
         // Decrement the reference count of the Arc on drop
         unsafe fn drop_waker(waker: *const ()) {
+            #[cfg(futures_buffered_verif)]
+            probe(crate::verif::kind::VT_DROP, waker);
             let meta = unsafe { meta_ref(waker.cast()) };
             if meta.dec_strong() {
                 unsafe {
                     super::drop_inner(meta_raw(waker.cast::<WakerItem>().cast_mut()), meta.len);
                 }
             }
+        }
+
+        // probe: (slot pointer, header it resolves to, index stored in the slot)
+        #[cfg(futures_buffered_verif)]
+        fn probe(kind: u32, waker: *const ()) {
+            let slot = waker.cast::<WakerItem>().cast_mut();
+            let meta = unsafe { meta_raw(slot) };
+            crate::verif::ev(kind, slot as usize, meta as usize, unsafe { (*slot).index });
         }
 
         let raw_waker = RawWaker::new(ptr.cast(), VTABLE);
@@ -267,6 +315,8 @@ impl WakerHeader {
         //
         // [1]: (www.boost.org/doc/libs/1_55_0/doc/html/atomic/usage_examples.html)
         let old_size = self.strong.fetch_add(1, Ordering::Relaxed);
+        #[cfg(futures_buffered_verif)]
+        crate::verif::ev(crate::verif::kind::INC_STRONG, self as *const Self as usize, old_size, 0);
 
         // However we need to guard against massive refcounts in case someone is `mem::forget`ing
         // Arcs. If we don't do this the count can overflow and users will use-after free. This
@@ -287,6 +337,8 @@ impl WakerHeader {
         // with other threads unless we are going to delete the object. This
         // same logic applies to the below `fetch_sub` to the `weak` count.
         let old_size = self.strong.fetch_sub(1, Ordering::Release);
+        #[cfg(futures_buffered_verif)]
+        crate::verif::ev(crate::verif::kind::DEC_STRONG, self as *const Self as usize, old_size, 0);
         if old_size != 1 {
             return false;
         }
@@ -320,6 +372,8 @@ impl WakerHeader {
         // [1]: (www.boost.org/doc/libs/1_55_0/doc/html/atomic/usage_examples.html)
         // [2]: (https://github.com/rust-lang/rust/pull/41714)
         atomic::fence(Ordering::Acquire);
+        #[cfg(futures_buffered_verif)]
+        crate::verif::ev(crate::verif::kind::DEC_FENCE, self as *const Self as usize, 0, 0);
         true
     }
 }
@@ -361,6 +415,8 @@ fn slice_offset() -> usize {
 /// The pointer must point to a currently allocated [`WakerList`].
 unsafe fn drop_inner(p: *mut WakerHeader, capacity: usize) {
     let layout = WakerList::layout(capacity);
+    #[cfg(futures_buffered_verif)]
+    crate::verif::ev(crate::verif::kind::BLOCK_FREE, p as usize, capacity, layout.size());
 
     // SAFETY: the pointer points to an aligned and init instance of `WakerHeader`
     unsafe { drop_in_place(p) };
@@ -371,6 +427,8 @@ unsafe fn drop_inner(p: *mut WakerHeader, capacity: usize) {
 
 impl Drop for WakerList {
     fn drop(&mut self) {
+        #[cfg(futures_buffered_verif)]
+        crate::verif::ev(crate::verif::kind::LIST_DROP, self.ptr.as_ptr() as usize, 0, 0);
         let meta = unsafe { &*self.ptr.as_ptr() };
         if meta.dec_strong() {
             unsafe { drop_inner(self.ptr.as_ptr().cast(), meta.len) }
@@ -431,6 +489,12 @@ impl WakerList {
                     queue: MpscQueue::new_with_stub(NonNull::new_unchecked(stub)),
                 },
             );
+        }
+
+        #[cfg(futures_buffered_verif)]
+        {
+            crate::verif::ev(crate::verif::kind::BLOCK_ALLOC, meta as usize, cap, core::mem::size_of::<WakerItem>());
+            crate::verif::ev(crate::verif::kind::BLOCK_LAYOUT, meta as usize, slice_offset(), arc_slice_layout.size());
         }
 
         Self {
